@@ -93,7 +93,7 @@ func (r *zzRC) Read(p []byte) (int, error) {
 // of it — or a sticky error once the retry budget is exhausted.
 func zzH_C15_retryReader() { zzRetryReaderHarness(2, 3, 2, 2, true) }
 
-func zzH_C15_retryReader_deep() { zzRetryReaderHarness(4, 4, 3, 3, true) }
+func zzH_C15_retryReader_deep() { zzRetryReaderHarness(3, 3, 3, 3, true) }
 
 func zzRetryReaderHarness(maxL, K, maxP, maxFail int, canPersist bool) {
 	L := zz.AnyIntIn("L", 0, maxL)
